@@ -1,5 +1,6 @@
 //! C06 — repair sequences are the complete minimum-cost set, ranked as documented.
-//! Oracle: reference exhaustive search over explicit repair sequences (rec::reference_search).
+//! Oracle: reference searches over explicit repair sequences (rec::reference_search, exhaustive;
+//! rec::reference_search_dag, folded by configuration), cross-checked against each other.
 
 use crate::frame::*;
 use crate::lrx::*;
@@ -24,14 +25,14 @@ impl Check for C06 {
     fn assumptions(&self) -> Vec<&'static str> {
         vec![
             "validity of a repair = plain replay from the error configuration (C05's notion); reach measured up to TRY_PARSE_AT_MOST lexemes beyond the error",
-            "reference search capped at 300k nodes and at reported cost <= 6 (cost-1 tables) / <= 3 edits (large costs): beyond that the error is inconclusive; errors found while the step budget had run out are inconclusive for completeness",
+            "two reference searches: exhaustive over explicit sequences (capped at 300k nodes and about nine edits) and folded by configuration (stack, position, last-edit-was-delete, trailing shifts; capped at 300k configurations and 3000 unfolded sequences); where both decide they must agree; errors neither decides, and errors found while the step budget had run out, are inconclusive for completeness",
         ]
     }
     fn floor(&self, tier: Tier) -> u64 {
         tier.sz(1500, 10000)
     }
     fn required_counters(&self, _t: Tier) -> Vec<&'static str> {
-        vec!["errors_compared", "sets_of_size_1", "sets_of_size_2_5", "sets_of_size_6_plus", "avoid_insert_reordered", "ranking_removed_candidates", "large_cost_tables", "long_inputs", "errors_compared_with_ranking_window_inside_input"]
+        vec!["errors_compared", "references_cross_checked", "errors_decided_by_folded_reference_only", "sets_of_size_1", "sets_of_size_2_5", "sets_of_size_6_plus", "avoid_insert_reordered", "ranking_removed_candidates", "large_cost_tables", "long_inputs", "errors_compared_with_ranking_window_inside_input"]
     }
     fn case_cap_s(&self, _t: Tier) -> u64 {
         180
@@ -132,12 +133,23 @@ impl Check for C06 {
                         out.inconclusive("no repairs reported but the step budget ran out");
                         continue;
                     }
-                    // claim: no repair exists at all; we can only test a bounded cost
+                    // claim: no repair exists at all. First a small cost bound; then, on tables without
+                    // resolved conflicts (where the search's and the replay's semantics coincide), the folded
+                    // reference up to the search's own cost ceiling (u16): a search that ended without running
+                    // out of budget has exhausted the space, so any repair at all refutes the empty list.
                     let bound = 3 * (*costs.iter().min().unwrap_or(&1) as u32).max(1);
+                    let conflict_table = rc.st.conflicts().is_some() || !rc.ag.precs.is_empty();
                     match reference_search(b, &rc.st, &toks, &cx.cfg, cx.pos, &cost, bound, 300_000) {
                         RefSearch::Found(c, s, _) => out.violate("missing-repair", &[], format!("no repair sequence reported, but {} repair(s) of cost {c} exist, e.g. [{}]", s.len(), pp_seq(&b.grm, s.iter().next().unwrap())), edetail(String::new())),
                         RefSearch::NoneUpTo(_) => {
                             out.count("empty_sets_confirmed_up_to_bound", 1);
+                            if !conflict_table {
+                                match reference_search_dag(b, &rc.st, &toks, &cx.cfg, cx.pos, &cost, 60_000, 150_000, 2000) {
+                                    RefSearch::Found(c, s, _) => out.violate("missing-repair", &[], format!("no repair sequence reported (and the search did not run out of budget), but {} repair(s) of cost {c} exist, e.g. [{}]", s.len(), pp_seq(&b.grm, s.iter().next().unwrap())), edetail(String::new())),
+                                    RefSearch::NoneUpTo(_) => out.count("empty_sets_confirmed_over_whole_space", 1),
+                                    RefSearch::Capped => out.count("empty_sets_whole_space_search_capped", 1),
+                                }
+                            }
                         }
                         RefSearch::Capped => out.inconclusive("reference search exceeded its node cap"),
                     }
@@ -166,11 +178,42 @@ impl Check for C06 {
                 let mech_tags: Vec<&str> = if !bogus.is_empty() && bogus_all_by_mechanism && conflict_table { vec!["valid_only_with_reductions_under_real_lookahead", "table_has_resolved_conflicts"] } else { vec![] };
                 let rc_cost = *rep_costs.iter().next().unwrap();
                 let min_tok = *costs.iter().min().unwrap_or(&1) as u32;
-                if (rc_cost / min_tok.max(1)) > 9 || rc_cost > 2600 {
-                    out.inconclusive("reported cost beyond the reference search's bound");
-                    continue;
-                }
-                match reference_search(b, &rc.st, &toks, &cx.cfg, cx.pos, &cost, rc_cost, 300_000) {
+                // two references with one specification: the exhaustive one over explicit sequences (reach: about
+                // nine edits) and the folded one (rec::reference_search_dag; reach: its node cap). Where both decide,
+                // they must agree (a disagreement is a fault of this harness, reported as such).
+                let within_exhaustive = !((rc_cost / min_tok.max(1)) > 9 || rc_cost > 2600);
+                let folded = reference_search_dag(b, &rc.st, &toks, &cx.cfg, cx.pos, &cost, rc_cost, 300_000, 3000);
+                let chosen = if within_exhaustive {
+                    let ex = reference_search(b, &rc.st, &toks, &cx.cfg, cx.pos, &cost, rc_cost, 300_000);
+                    let same = match (&ex, &folded) {
+                        (RefSearch::Found(c1, s1, _), RefSearch::Found(c2, s2, _)) => {
+                            out.count("references_cross_checked", 1);
+                            c1 == c2 && s1 == s2
+                        }
+                        (RefSearch::NoneUpTo(_), RefSearch::NoneUpTo(_)) => {
+                            out.count("references_cross_checked", 1);
+                            true
+                        }
+                        (RefSearch::Capped, _) | (_, RefSearch::Capped) => true,
+                        _ => false,
+                    };
+                    if !same {
+                        let d = |r: &RefSearch| match r {
+                            RefSearch::Found(c, s, _) => format!("cost {c}: {}", s.iter().map(|q| pp_seq(&b.grm, q)).collect::<Vec<_>>().join(" | ")),
+                            RefSearch::NoneUpTo(c) => format!("none up to {c}"),
+                            RefSearch::Capped => "capped".into(),
+                        };
+                        out.violate("reference-disagreement", &["harness"], "the exhaustive and the folded reference searches disagree".into(), edetail(format!("exhaustive: {}; folded: {}", d(&ex), d(&folded))));
+                        continue;
+                    }
+                    if matches!(ex, RefSearch::Capped) { folded } else { ex }
+                } else {
+                    if !matches!(folded, RefSearch::Capped) {
+                        out.count("errors_decided_by_folded_reference_only", 1);
+                    }
+                    folded
+                };
+                match chosen {
                     RefSearch::Capped => out.inconclusive("reference search exceeded its node cap"),
                     RefSearch::NoneUpTo(_) => {
                         out.violate("reported-repair-not-found-by-reference", &mech_tags, format!("reference search finds no valid repair of cost <= {rc_cost} although {} were reported", e.repairs.len()), edetail(String::new()));
